@@ -1,6 +1,8 @@
 package main
 
 import (
+	"time"
+	"encoding/json"
 	"bytes"
 	"fmt"
 	"io"
@@ -38,6 +40,7 @@ func suiteConc(c *Ctx) {
 			concTopKHot(c, []int{2, 4, 8, 16}[rep])
 		}
 		concTopKHuge(c)
+		concSnapshotReport(c)
 	}
 }
 
@@ -109,7 +112,7 @@ func concBloom(c *Ctx, g int) {
 			case 3:
 				f.Lookup(e)
 			case 4:
-				f.Export()
+				concSnapshot("BloomFilter", f.Export)
 				f.BloomPositiveRate()
 			default:
 				f.WriteTo(io.Discard)
@@ -191,7 +194,7 @@ func concCMS(c *Ctx, g int) {
 					own[string(e)] += 2
 				}
 			case 5:
-				s.Export()
+				concSnapshot("CountMinSketch", s.Export)
 				// the shared sketch as the SOURCE of a merge into a private one: the private copy
 				// must be a consistent snapshot (every row saw the same updates)
 				p, _ := gostatix.NewCountMinSketch(3, 7)
@@ -259,7 +262,7 @@ func concHLL(c *Ctx, g int) {
 					mine = append(mine, e)
 				}
 			case 5:
-				h.Export()
+				concSnapshot("HyperLogLog", h.Export)
 				p, _ := gostatix.NewHyperLogLog(256)
 				p.Merge(h) // shared sketch as merge source
 			default:
@@ -326,7 +329,7 @@ func concCuckoo(c *Ctx, g int) {
 				f.Length()
 				f.Lookup(e)
 			default:
-				f.Export()
+				concSnapshot("CuckooFilter", f.Export)
 				f.WriteTo(io.Discard)
 			}
 			if rng.Intn(4) == 0 {
@@ -401,7 +404,7 @@ func concTopK(c *Ctx, g int) {
 			case 3:
 				t.Values()
 			default:
-				t.Export()
+				concSnapshot("TopK", t.Export)
 				t.WriteTo(io.Discard)
 			}
 			if rng.Intn(4) == 0 {
@@ -624,4 +627,41 @@ func concHLLSmall(c *Ctx, g int) {
 	if bad != "" {
 		c.fail([]string{"C07", "C06"}, "conc-final-state", "HyperLogLog: "+bad, map[string]interface{}{"structure": "HyperLogLog", "goroutines": g})
 	}
+}
+
+// concSnapshot: what Export returns belongs to the caller.  The bytes are kept for a while (other
+// goroutines go on, some of them exporting too), then read again: they must be what they were and
+// still a well-formed document.  (A result that aliases memory the structure keeps writing to is a
+// data race on these reads, which the race detector reports; the comparison also works without it.)
+var concSnapshotBad struct {
+	sync.Mutex
+	msgs []string
+}
+
+func concSnapshot(name string, export func() ([]byte, error)) {
+	doc, err := export()
+	if err != nil {
+		return
+	}
+	keep := string(doc)
+	for i := 0; i < 3; i++ {
+		runtime.Gosched()
+	}
+	time.Sleep(20 * time.Microsecond)
+	if string(doc) != keep || !json.Valid(doc) {
+		concSnapshotBad.Lock()
+		if len(concSnapshotBad.msgs) < 5 {
+			concSnapshotBad.msgs = append(concSnapshotBad.msgs, fmt.Sprintf("%s: the bytes returned by Export changed after the call had returned (or are not a JSON document): %.80q -> %.80q", name, keep, string(doc)))
+		}
+		concSnapshotBad.Unlock()
+	}
+}
+
+func concSnapshotReport(c *Ctx) {
+	concSnapshotBad.Lock()
+	defer concSnapshotBad.Unlock()
+	for _, m := range concSnapshotBad.msgs {
+		c.fail([]string{"C07", "C10"}, "conc-export-not-a-snapshot", m, nil)
+	}
+	concSnapshotBad.msgs = nil
 }
